@@ -1311,3 +1311,47 @@ _ROUND2_HEAVY = {
 BUILDERS.update(_ROUND2)
 BUILDERS.update(_ROUND2_HEAVY)
 HEAVY.update(_ROUND2_HEAVY)
+
+
+# ---------------------------------------------------------------------------------------------------------------
+# the "generator is stuck" exit: the same calls with a gen_i that returns FF..FF for ever, so that the rejection
+# sampling of the one-time / private key gives up (ERR_BAD_RNG) after the state holding the long-term secret was built
+import ctypes as _ct
+
+_GEN_T = _ct.CFUNCTYPE(None, _ct.c_void_p, _ct.c_size_t, _ct.c_void_p)
+
+
+def _stuck_gen(buf, count, state):
+    if count:
+        _ct.memset(buf, 0xFF, count)
+
+
+_stuck_c = _GEN_T(_stuck_gen)
+STUCK_ADDR = _ct.cast(_stuck_c, _ct.c_void_p).value
+
+
+def _stuck(base):
+    def build(lib, rng, size):
+        c = BUILDERS[base](lib, rng, size)
+        good = lib.addr("brngCTRStepR")
+        n = 0
+        for v in c.v:
+            for i, a in enumerate(v.args):
+                if isinstance(a, int) and a == good:
+                    v.args[i] = STUCK_ADDR
+                    n += 1
+        if n != 2:
+            raise Harness("%s: generator argument not found" % base)
+        c.name = base + ":stuck-rng"
+        c.expect_ok = False
+        c.exit_class = "stuck-generator"
+        return c
+    return build
+
+
+# (dstu, pfok and bels mask / reduce the generator output instead of rejecting it: FF..FF is an admissible draw there)
+for _b in ("bignSign", "bignKeypairGen", "bignKeyWrap", "bign96Sign", "bign96KeypairGen", "g12sSign", "g12sKeypairGen", "bignIdSign"):
+    if _b in BUILDERS:
+        BUILDERS[_b + ":stuck-rng"] = _stuck(_b)
+        if _b in HEAVY:
+            HEAVY.add(_b + ":stuck-rng")
